@@ -133,50 +133,70 @@ def rule_main(ctx, rule_exit, rule_stderr):
 
 
 def eval_flow_table(fb):
-    """Interpreter::eval with the form reader and the evaluation of one form as scripted events.  A scenario is a list of reader items
-    (a form Sk, or a read error) with the outcome of evaluating each form; the table records the order of `read` and `eval` events
-    and the result."""
+    """Interpreter::eval with the character-level reader, the form reader and the evaluation of one form as scripted events.  The
+    script is a list of tokens; the (stubbed) parser turns one token into one form, pulling it from whatever token source it was
+    constructed with — so both a reader that is drained ahead of evaluation and a tokenizer that is drained ahead of parsing show
+    up in the order of the events `lex k`, `read k`, `eval S`."""
     ITP = "interpreter::interpreter::Interpreter::"
     f = fb.find(ITP + "eval")
     fields = [x["name"] for x in fb.adt("interpreter::interpreter::Interpreter")["variants"][0]["fields"]]
     rows = []
     V1, V2 = T("value-1"), T("value-2")
-    RE, EE = T("read-error"), T("evaluation-error")
+    RE, EE, LE = T("read-error"), T("evaluation-error"), T("lexical-error")
     scenarios = [
         ("two-values", [("S1", ok(some(V1))), ("S2", ok(some(V2)))]),
         ("value-then-definition", [("S1", ok(some(V1))), ("S2", ok(none()))]),
         ("form-then-read-error", [("S1", ok(some(V1))), ("READ-ERROR", None), ("S3", ok(some(V2)))]),
+        ("form-then-lexical-error", [("S1", ok(some(V1))), ("LEX-ERROR", None), ("S3", ok(some(V2)))]),
         ("evaluation-error-then-form", [("S1", err(EE)), ("S2", ok(some(V2)))]),
         ("empty", []),
     ]
     for name, script in scenarios:
         ev = []
         forms = {}
-        parser = Enum(0, [UNKNOWN], adt="parser::parser::Parser") if False else None
-        pos = [0]
+        lpos = [0]
+        src = [None]
 
         class _P(Enum):
             pass
         ptok = _P(0, [])
         ptok.adt, ptok.name = "parser::parser::Parser", "Parser"
+        ltok = _P(0, [])
+        ltok.adt, ltok.name = "parser::lexer::Lexer", "Lexer"
 
-        def icpt(mc, c, a, tt, g, script=script, ev=ev, forms=forms, pos=pos, ptok=ptok):
+        def icpt(mc, c, a, tt, g, script=script, ev=ev, forms=forms, lpos=lpos, ptok=ptok, ltok=ltok, src=src):
             end = c.rsplit("::", 1)[-1]
             if c.endswith("Lexer::from_char_stream") or (("lexer::Lexer" in c) and end in ("new", "from", "from_char_stream")):
-                return T("lexer")
-            if c.endswith("Parser::from_lexer") or (("parser::Parser" in c) and end in ("new", "from", "from_lexer", "from_char_stream")):
-                return ptok
-            if "parser::Parser" in c and end == "next" and a and a[0] is ptok:
-                k = pos[0]
-                pos[0] += 1
-                ev.append(("read", k))
+                return ltok
+            if "lexer::Lexer" in c and end == "next" and a and a[0] is ltok:
+                k = lpos[0]
+                lpos[0] += 1
+                ev.append(("lex", k))
                 if k >= len(script):
                     return none()
-                tag, _ = script[k]
+                tag = script[k][0]
+                return some(err(LE)) if tag == "LEX-ERROR" else some(ok(T("token-of-" + tag)))
+            if c.endswith("Parser::from_lexer") or (("parser::Parser" in c) and end in ("new", "from", "from_lexer", "from_char_stream")):
+                src[0] = a[0] if a else None
+                return ptok
+            if "parser::Parser" in c and end == "next" and a and a[0] is ptok:
+                ev.append(("read", sum(1 for e in ev if e[0] == "read")))
+                item = mc.step(src[0]) if src[0] is not None else NOT
+                if item is NOT or not isinstance(item, Enum):
+                    return UNKNOWN
+                if item.variant == 0:
+                    return none()
+                tokres = item.fields[0]
+                if isinstance(tokres, Enum) and getattr(tokres, "name", None) == "Err" or (isinstance(tokres, Enum) and tokres.variant == 1 and tokres.fields and tokres.fields[0] is LE):
+                    return some(err(tokres.fields[0]))
+                tk = tokres.fields[0] if isinstance(tokres, Enum) and tokres.fields else tokres
+                tag = tk.tag[len("token-of-"):] if isinstance(tk, T) and tk.tag.startswith("token-of-") else None
+                if tag is None:
+                    return UNKNOWN
                 if tag == "READ-ERROR":
                     return some(err(RE))
-                s = forms.setdefault(tag, T(tag))
-                return some(ok(s))
+                s_ = forms.setdefault(tag, T(tag))
+                return some(ok(s_))
             if c in (ITP + "eval_root_ast", ITP + "eval_ast", ITP + "eval_ast_error_no_location", ITP + "eval_expression_or_definition"):
                 st = next((x for x in a[1:2] if isinstance(absint.deref(x), T)), None)
                 st = absint.deref(st) if st is not None else None
@@ -192,9 +212,9 @@ def eval_flow_table(fb):
         try:
             res = mc.run(f, [selfv, T("char-stream")])
         except (absint.Stuck, absint.Loop) as e:
-            rows.append((name, {"stuck": str(e)}))
+            rows.append((name, {"stuck": str(e), "events": list(ev)}))
             continue
-        rows.append((name, {"result": res, "events": ev, "V1": V1, "V2": V2, "RE": RE, "EE": EE}))
+        rows.append((name, {"result": res, "events": ev, "V1": V1, "V2": V2, "RE": RE, "EE": EE, "LE": LE}))
     return f, rows
 
 
@@ -226,7 +246,8 @@ def rule_eval_flow(ctx, rules):
         res, ev = d["result"], d["events"]
         okres = isinstance(res, Enum) and getattr(res, "name", None) == "Ok"
         errres = isinstance(res, Enum) and getattr(res, "name", None) == "Err"
-        evs = [(k, v) for k, v in ev]
+        all_evs = [(k, v) for k, v in ev]
+        evs = [(k, v) for k, v in ev if k != "lex"]
         checks = []
         if name == "two-values":
             checks.append(("last-value", okres and _has(res, d["V2"]) and not _has(res, d["V1"]),
@@ -243,6 +264,12 @@ def rule_eval_flow(ctx, rules):
             checks.append(("incremental", ("eval", "S1") in evs and evs.index(("eval", "S1")) < (evs.index(("read", 1)) if ("read", 1) in evs else 99),
                            "the form before a read error is %s; expected it to be evaluated before the reader is asked for the next form (its effects "
                            "and output belong to the session / program)" % ("evaluated only after the failing read" if ("eval", "S1") in evs else "never evaluated")))
+        elif name == "form-then-lexical-error":
+            checks.append(("stop-at-first", errres and _has(res, d["LE"]) and ("eval", "S3") not in evs,
+                           "a lexical error after a good form yields %r with the events %s, expected that error and nothing evaluated after it" % (res, evs)))
+            checks.append(("incremental", ("eval", "S1") in all_evs and ("lex", 1) in all_evs and all_evs.index(("eval", "S1")) < all_evs.index(("lex", 1)),
+                           "the form before a lexical error is %s; expected it to be evaluated before the text after it is even tokenized (its effects "
+                           "and output belong to the session / program)" % ("evaluated only after the failing token was read" if ("eval", "S1") in all_evs else "never evaluated")))
         elif name == "evaluation-error-then-form":
             checks.append(("stop-at-first", errres and _has(res, d["EE"]) and ("eval", "S2") not in evs,
                            "after a failing form eval yields %r with the events %s, expected the error and no later form evaluated" % (res, evs)))
